@@ -48,6 +48,7 @@ type xTriple struct {
 }
 
 type pools struct {
+	batch  []byte    // the three valid XMSS signatures stored back to back in ONE buffer (shared by all goroutines, read-only)
 	xlong  []xTriple // the same keys, a 5000-byte message each
 	x      []xTriple // valid XMSS triples from 3 different keys (3 hash functions)
 	xseeds [][]byte  // seeds for goroutine-private XMSS keys
@@ -84,6 +85,10 @@ func getPools() *pools {
 		p.xseeds = append(p.xseeds, seed)
 		p.xrefs = append(p.xrefs, ref)
 	}
+	for i := range p.x {
+		p.batch = append(p.batch, p.x[i].sig...)
+	}
+	p.batch = append(p.batch, make([]byte, 64)...)
 	for i := 0; i < 3; i++ {
 		seed := pu.DetBytes(uint64(3000+i), 48)
 		ref := pu.DilRef(seed)
@@ -128,7 +133,7 @@ type program struct {
 }
 
 var ops = []string{"xmss.Verify", "xmss.Verify.bad", "xmss.Address", "xmss.IsValidAddress", "xmss.LegacyAddress", "xmss.IsValidLegacy", "descriptor", "mnemonic.enc48", "mnemonic.dec48", "mnemonic.enc51", "mnemonic.dec51", "mnemonic.bad",
-	"dil.Verify", "dil.Verify.bad", "dil.Verify.malformed", "dil.Open", "dil.Address", "dil.IsValidAddress", "dil.Sign.shared", "dil.Seal.shared", "dil.getters.shared", "xmss.private.Sign", "xmss.private.SetIndex", "xmss.private.getters", "xmss.VerifyW", "xmss.VerifyW", "xmss.helpers", "xmss.Verify.long", "xmss.IsValidLegacy.bad", "dil.Verify.lookalike", "dil.Sign.reusedbuf"}
+	"dil.Verify", "dil.Verify.bad", "dil.Verify.malformed", "dil.Open", "dil.Address", "dil.IsValidAddress", "dil.Sign.shared", "dil.Seal.shared", "dil.getters.shared", "xmss.private.Sign", "xmss.private.SetIndex", "xmss.private.getters", "xmss.VerifyW", "xmss.VerifyW", "xmss.helpers", "xmss.Verify.long", "xmss.IsValidLegacy.bad", "dil.Verify.lookalike", "dil.Sign.reusedbuf", "xmss.Verify.inbatch", "dil.Open.wrongkey-then-right"}
 
 // Winternitz parameters presented to VerifyWithCustomWOTSParamW: the three supported ones and, per size class,
 // one value that the parameter validation also lets through (truncated log2): 17 ~ 16, 5 ~ 4, 300 ~ 256.
@@ -152,8 +157,10 @@ func expected(p *pools, c callSpec) string {
 		return "true"
 	case "xmss.Verify.bad", "xmss.IsValidLegacy.bad", "dil.Verify.lookalike":
 		return "false"
-	case "xmss.Verify.long":
+	case "xmss.Verify.long", "xmss.Verify.inbatch":
 		return "true"
+	case "dil.Open.wrongkey-then-right":
+		return "/" + hex.EncodeToString(p.dmsgs[c.B%3])
 	case "dil.Sign.reusedbuf":
 		return hex.EncodeToString(p.dsigs[[2]int{a, c.B % 3}])[:64] + "/" + hex.EncodeToString(p.dsigs[[2]int{a, (c.B + 1) % 3}])[:64]
 	case "xmss.helpers":
@@ -283,6 +290,15 @@ func execCall(p *pools, c callSpec, priv *privKey) (res string) {
 		return fmt.Sprint(xmss.Verify(p.x[a].msg, p.x[a].bad, p.x[a].pk))
 	case "xmss.Verify.long":
 		return fmt.Sprint(xmss.Verify(p.xlong[a].msg, p.xlong[a].sig, p.xlong[a].pk))
+	case "xmss.Verify.inbatch":
+		// the signature is a window into a buffer that holds other signatures right behind it
+		n := len(p.x[0].sig)
+		return fmt.Sprint(xmss.Verify(p.x[a].msg, p.batch[a*n:(a+1)*n], p.x[a].pk))
+	case "dil.Open.wrongkey-then-right":
+		// one sealed buffer (private to this call) opened under a wrong key, then under the right one
+		sm := append(append([]byte{}, p.dsigs[[2]int{a, c.B % 3}]...), p.dmsgs[c.B%3]...)
+		wrong, right := p.dpk[(a+1)%3], p.dpk[a]
+		return hex.EncodeToString(dilithium.Open(sm, &wrong)) + "/" + hex.EncodeToString(dilithium.Open(sm, &right))
 	case "xmss.IsValidLegacy.bad":
 		l := xmss.GetLegacyXMSSAddressFromPK(p.x[a].pk)
 		l[35+c.B%4] ^= byte(1 << uint(c.B%8)) // a checksum byte damaged
@@ -582,7 +598,7 @@ func TestPrograms(t *testing.T) {
 	// alternation storms: 8 goroutines hammer ONE operation family, every goroutine switching to another pool
 	// entry (key / public key / seed) on every round - the access pattern that defeats a cache keyed on "the
 	// last key used" (sequentially detectable too) or published in two steps (only concurrently)
-	for _, op := range []string{"dil.Verify.malformed", "dil.Verify.lookalike", "dil.Verify", "dil.Open", "dil.Sign.shared", "dil.Sign.reusedbuf", "xmss.Verify.long", "dil.Address", "xmss.Verify", "xmss.Address", "mnemonic.dec48", "xmss.VerifyW"} {
+	for _, op := range []string{"dil.Verify.malformed", "dil.Verify.lookalike", "dil.Verify", "dil.Open", "dil.Sign.shared", "dil.Sign.reusedbuf", "xmss.Verify.long", "xmss.Verify.inbatch", "dil.Open.wrongkey-then-right", "dil.Address", "xmss.Verify", "xmss.Address", "mnemonic.dec48", "xmss.VerifyW"} {
 		const G, R = 8, 24
 		var wg sync.WaitGroup
 		start := make(chan struct{})
